@@ -799,6 +799,15 @@ theorem exec_delta {nt : Nat} (s : St) (op : Op) (h : MInv nt s) (hd : DInv s) :
       · exact hd.throw
       · refine hd.done _ _ (Step.of_sameCore (sameCore_unblockAccount _ _) ?_)
         unfold unblockAccount; split <;> rfl
+  | designate nodes caller =>
+    simp only [exec]
+    split
+    · exact hd
+    · cases hs : designateNotary s.env s.cur nodes (witCommittee s.env s.cur caller s.env.desigC) with
+      | none => exact hd.throw
+      | some l =>
+        have := sameCore_designateNotary _ _ _ _ _ hs
+        exact hd.done l .null (Step.of_sameCore this.1 this.2)
 
 theorem step_delta {nt : Nat} (s : St) (op : Op) (h : MInv nt s) (hd : DInv s) : DInv (step s op) := by
   unfold step
